@@ -366,10 +366,28 @@ def trace_term(events):
     return "[" + ";\n ".join(items) + "]"
 
 
+last_hang = None      # set when the last harness run was abandoned because a scenario did not end
+
+
+def read_hang(work, scenarios):
+    """{"scenario", "index", "stacks"} if the harness' watchdog abandoned the run (harness/simrun_test.go)"""
+    global last_hang
+    last_hang = None
+    path = work.path("m5out.jsonl") + ".hang"
+    if os.path.exists(path):
+        h = json.load(open(path))
+        os.remove(path)
+        last_hang = {"index": h["i"], "scenario": scenarios[h["i"]] if h["i"] < len(scenarios) else None,
+                     "limit_s": h["limit_s"], "stacks": h["stacks"][-6000:]}
+    return last_hang
+
+
 def run_scenarios(work, scenarios, files=None):
     write_jsonl(work.path("m5scen.jsonl"), scenarios)
     rc, gout = go_test(work, files or ["common_test.go", "sim_test.go", "simrun_test.go", "assets_test.go"], "^TestVerifSim$",
                        {"VERIF_IN": work.path("m5scen.jsonl"), "VERIF_OUT": work.path("m5out.jsonl")}, synctest=True)
+    if read_hang(work, scenarios):
+        return False, gout, []
     if rc != 0 or not os.path.exists(work.path("m5out.jsonl")):
         return False, gout, []
     outs = read_jsonl(work.path("m5out.jsonl"))
